@@ -314,6 +314,22 @@ def run_c05(tier, budget, rnd, res, script, post):
             i = rnd.randrange(n)
             mg = call(lambda: MaxGainGame(g, i).get_values())
             script.add(f"shp maxgain {n} {i} {rlist(lo)} {rlist(hi)}", ans_list(mg), {"case": replay, "player": i})
+            # the three entry points of the max-gain game agree: get_values(), get_values(coalitions), get_value(coalition)
+            # — "upper bound on coalitions containing the player, lower bound elsewhere"
+            if mg[0] == "ok":
+                from incomplete_cooperative.coalitions import Coalition as _C
+                mgg = MaxGainGame(g, i)
+                want = [hi[c] if c >> i & 1 else lo[c] for c in range(N)]
+                sub = [rnd.randrange(N) for _ in range(3)]
+                try:
+                    one = [frac(mgg.get_value(_C(c))) for c in range(N)]
+                    some = [frac(x) for x in mgg.get_values([_C(c) for c in sub])]
+                except Exception as ex:      # noqa: BLE001
+                    one, some = f"raised {type(ex).__name__}", None
+                if [frac(x) for x in mg[1]] != want or one != want or some != [want[c] for c in sub]:
+                    res.violation("the max-gain game of a player is not 'upper bound on coalitions containing the player, lower "
+                                  "bound elsewhere' at every entry point (get_values / get_values(coalitions) / get_value)",
+                                  dict(replay, player=i, get_value=repr(one)[:300]), key="C05:maxgain")
             # ---- oracle on the real code
             if malformed:
                 if r_real != ("err", "err:value") or r_stub != ("err", "err:value"):
